@@ -68,6 +68,13 @@ def amin(
     """
     del out
     poly = numpoly.aspolynomial(a)
+    # the start value is a number to compare the result with, not a rank
+    initial = kwargs.pop("initial", None)
+    if initial is not None:
+        where = kwargs.pop("where", True)
+        if where is not True:
+            poly = numpoly.where(numpy.broadcast_to(where, poly.shape), poly, initial)
+        return numpoly.minimum(amin(poly, axis=axis, **kwargs), initial)
     options = numpoly.get_options()
     proxy = numpoly.sortable_proxy(
         poly, graded=options["sort_graded"], reverse=options["sort_reverse"]
